@@ -264,7 +264,8 @@ def model_label_rule(prog, f0):
                     model['arg0._points.point(%d)._name' % i] = x
                 model['#alias'] = {'point': '_points'}
                 try:
-                    events, end, undec = a7.walk(f0, model, stop=stop, follow_loops=True, max_steps=4000)
+                    wst = {'library_lookups': True}
+                    events, end, undec = a7.walk(f0, model, stop=stop, follow_loops=True, max_steps=4000, state=wst)
                 except a7.OutOfRange as e:
                     return 'undecided', 'the walk indexes outside a modelled container (%s)' % (e,)
                 n += 1
@@ -275,6 +276,8 @@ def model_label_rule(prog, f0):
                     return 'undecided', 'the label test cannot be evaluated on finite models%s' % what
                 missing = [x for x in L if x not in N]
                 got = end.split('@')[0]
+                if wst.get('lookup_unread') and ((missing and got != 'throw:std::invalid_argument') or (not missing and not end.startswith('stop@'))):
+                    return 'undecided', 'the walk passes %s, whose outcome cannot be evaluated on the model' % wst['lookup_unread']
                 if missing and got != 'throw:std::invalid_argument':
                     return 'violation', 'with POINT:LABELS = %s and a frame whose points are named %s (label %s missing) the call ends in %s; documented: refused with std::invalid_argument' % (L, list(N), missing[0], got)
                 if not missing and not end.startswith('stop@'):
